@@ -67,6 +67,13 @@ CHECKS = {
         "interrupted and re-run prunes.",
    note="prune batch boundary (1000 keys) is exercised only by thorough-tier histories with many dead nodes",
    technique="TLA+ reachability invariants (MPTRounds.tla / MPTPersist.tla) checked by TLC on real per-write-element traces"),
+ "C17": dict(level="model_checking", ref="DESIGN.md §5 C17",
+   text="MPTSync.tla defines, on the canonical term, the frontier of absent nodes and the lookup result on a partial store; TLC "
+        "checks the oracle and emits every (content, removed node set) of its scope (2080 plans quick); each plan and seeded random "
+        "larger ones are executed on the real trie (HasMissingNodes, GetAllMissingNodes, GetMissingNodeKeys, lookups of all paths, "
+        "MergeDB repair at the same/another version from donors in map order, donor byte-for-byte comparison) and validated by TLC.",
+   note="nodes are named by position; tries with mixed node origins are included",
+   technique="TLA+ frontier/lookup oracle (MPTSync.tla) + TLC-enumerated fault sets replayed into the Go code + TLC trace validation"),
 }
 
 NOT_APPLICABLE = []
